@@ -1,4 +1,5 @@
 --------------------------------- MODULE APA_Writers ---------------------------------
+\* COVERS: {"mc": "MC_Writers", "actions": ["New", "Write", "EditScenario"], "devs": ["DEV_GlobalPrecision", "DEV_AccumulatingRoot", "DEV_NoTruncate", "DEV_NetworkCached"]}
 (* C15, UNBOUNDED histories: typed (Apalache) transcription of MC_Writers + Writers WITHOUT the step       *)
 (* counter (`steps`, MaxSteps): any number of write calls, in any interleaving with the construction of    *)
 (* up to MaxWriters writers (the universe: MaxWriters = 3, Precisions = {2, 6}, Paths = {"a", "b"}, a scenario  *)
